@@ -167,11 +167,22 @@ impl ConnectionManager {
                     }
                 },
                 Some(connecting_output) = self.pending_connections.join_next() => {
-                    self.handle_connecting_result(connecting_output.unwrap());
+                    match connecting_output {
+                        Ok(connecting_output) => self.handle_connecting_result(connecting_output),
+                        // Tasks are only ever cancelled from under us when the runtime is being
+                        // torn down; that is not a reason to panic
+                        Err(e) if e.is_cancelled() => trace!("pending connection task was cancelled"),
+                        // If a task panics, just propagate it
+                        Err(e) => std::panic::resume_unwind(e.into_panic()),
+                    }
                 },
                 Some(connection_handler_output) = self.connection_handlers.join_next() => {
-                    // If a task panics, just propagate it
-                    connection_handler_output.unwrap();
+                    match connection_handler_output {
+                        Ok(()) => {}
+                        Err(e) if e.is_cancelled() => trace!("connection handler task was cancelled"),
+                        // If a task panics, just propagate it
+                        Err(e) => std::panic::resume_unwind(e.into_panic()),
+                    }
                 },
             }
         }
@@ -197,11 +208,13 @@ impl ConnectionManager {
 
         // Wait for all connection handlers to terminate
         while self.connection_handlers.join_next().await.is_some() {}
-        // At this point we shouldn't have any active peers
-        assert!(
-            self.active_peers.inner().connections.is_empty(),
-            "ActivePeers should be empty after all connection handlers have terminated"
-        );
+        // At this point we shouldn't have any active peers, unless a connection handler was
+        // cancelled (the runtime is being torn down) before it could unregister its peer. Drop
+        // whatever is left so that subscribers still learn about the loss.
+        for peer_id in self.active_peers.peers() {
+            self.active_peers
+                .remove(&peer_id, DisconnectReason::LocallyClosed);
+        }
 
         // wait for the endpoint to be idle
         self.endpoint
